@@ -165,6 +165,29 @@ def run(c):
             c.finding_or_violation(cz("a masked path reveals content", dev_null_in_container=bool(x["init_cmd"])), dict(rep, bytes_read_from_proc_timer_list=pr["kcore_read"]), klass="mask")
     c.sample({"implementation": metas[0][1], "mounts": cases[0]["mounts"], "mountinfo": (obs[0].get("mountinfo") or "").splitlines()[:10],
               "probe": json.loads(obs[0]["probe"]) if (obs[0].get("probe") or "").startswith("{") else obs[0].get("probe")})
+    # ---- one base table handed to two builders
+    cz2 = lambda what, **kw: dict({"kind": "confinement", "what": what, "implementation": "pkg/mount builder / container"}, **kw)
+    ba = c.run_harness(exe, [{"id": 0, "mode": "builder_alias"}], env=env, timeout=120)[0]
+    c.count("builder-alias", nontrivial=True, klass="builder")
+    tg = lambda rows: [r_.split("|")[1] for r_ in rows]
+    if ba["base_after"] != ba["base_before"]:
+        c.finding_or_violation(cz2("Builder.WithMounts / FilterNotExist / With* modify the caller's slice"), {"observed": ba}, klass="builder-alias")
+    elif tg(ba["first"]) != ["usr", "bin", "w", "src"] or tg(ba["second"]) != ["usr", "bin", "w", "other"] or ba["first_later"] != ba["first"]:
+        c.finding_or_violation(cz2("two builders made from one base table see each other's entries", first=tg(ba["first_later"]), second=tg(ba["second"])),
+                               {"observed": ba}, klass="builder-alias")
+    # ---- a read-only bind whose source file system is read-only as a whole during set-up and writable again afterwards
+    for init_cmd in (False, True):
+        so = c.run_harness(exe, [{"id": 0, "mode": "sb_readonly", "runner": "container", "init_cmd": init_cmd, "mounts": [], "probe": []}], env=env, timeout=120)[0]
+        if "harness_err" in so:
+            raise RuntimeError(so["harness_err"])
+        c.count(("sb-readonly", init_cmd), nontrivial=True, klass="sb-readonly")
+        if so.get("status") != 1 or not (so.get("probe") or "").startswith("{"):
+            c.finding_or_violation(cz2("the sandbox cannot be built or the probe does not run", error=str(so.get("error"))[:80]), {"observed": so}, klass="build")
+            continue
+        spr = json.loads(so["probe"])
+        if spr["paths"]["/data"]["write_errno"] != 30:
+            c.finding_or_violation(cz2("a mount declared read-only accepts writes once the source file system is writable again (it was read-only as a whole during set-up)",
+                                      write_errno=spr["paths"]["/data"]["write_errno"]), {"observed": so}, klass="sb-readonly")
     dis = []
     body = HDR + ("Definition cs : list (list (nat * list (list nat * bool)) * list decl * list (list nat * bool) * list (list nat * bool)) := %s.\n"
                   "Definition M := Eval vm_compute in failing table_ok cs.\nPrint M.\n") % coq_list(items)
